@@ -11,16 +11,25 @@ import (
 	"github.com/NethermindEth/juno/blockchain"
 	"github.com/NethermindEth/juno/core"
 	"github.com/NethermindEth/juno/core/pending"
+	"github.com/NethermindEth/juno/db"
 	"github.com/NethermindEth/juno/pruner"
 	"verif/harness/lib"
 )
 
 // Op is one step of a history. Histories are the replay format.
 type Op struct {
-	Kind string `json:"op"`             // store | revert | query | snap | restart | prune (n = oldest block kept)
+	// store | revert | query | snap | restart | prune (n = oldest block kept)
+	// storefail / revertfail: the batch commit of the Store / RevertHead fails (injected)
+	// restartfault: restart whose lazy initialisation hits a transient read error
+	// restartcrash: the process dies inside the initialiser before (n = 0) / after (n = 1) its window write
+	// prunecrash: pruner.PruneUpto(n) with tiny batches whose j-th commit fails
+	// tamper: t = "del W" | "mov A B": a persisted window deleted / stored under another key behind the node's back
+	Kind string `json:"op"`
 	Plan Plan   `json:"plan,omitempty"` // store: events per transaction (absent = no transactions)
 	N    int    `json:"n,omitempty"`    // store: number of blocks with this plan (default 1); revert: depth (default 1)
 	Q    *Q     `json:"q,omitempty"`
+	J    int    `json:"j,omitempty"`
+	T    string `json:"t,omitempty"`
 }
 
 func (o Op) String() string {
@@ -46,7 +55,12 @@ type Scenario struct {
 }
 
 // Variant says which repairs the tree under test contains (probed, see probe.go).
-type Variant struct{ FixCache, FixSnap, FixPersist bool }
+type Variant struct {
+	FixCache, FixSnap, FixPersist bool
+	// InitRetry: a failed lazy initialisation is NOT remembered for event queries (the repair of
+	// C05's L16, not in the tree yet): the harness then re-arms the model after the failing access.
+	InitRetry bool
+}
 
 func b2s(b bool) string {
 	if b {
@@ -67,6 +81,11 @@ type World struct {
 	Name    string
 	Hist    []Op
 	Floor   int // oldest retained block (0 = nothing pruned)
+	Faulted bool // a lazy initialisation failed (injected) and no write / restart has re-armed it since
+	Tampered bool // the database was corrupted on purpose: errors are expected, correspondence only
+	V       Variant
+	wires   map[int]*wireServer
+	preFirst int // number of the first pre-confirmed block the running query may be served from; -1: none
 	drvDead bool
 	pool    *DrvPool
 	quiet   bool // no correspondence, oracle only
@@ -79,8 +98,11 @@ func (w *World) ask(line string) string {
 	out, err := w.Drv.Ask(line)
 	if err != nil {
 		w.drvDead = true
-		w.Res.Note("driver died in %s: %v", w.Name, err)
+		w.Res.Fatalf("driver died in %s: %v", w.Name, err)
 		return ""
+	}
+	if out == "bad-op" {
+		w.Res.Fatalf("driver answered bad-op to %q in %s", line, w.Name)
 	}
 	return out
 }
@@ -148,7 +170,7 @@ func itemsLine(items []Item) string {
 func (w *World) storeOne(plan Plan) {
 	b, err := w.Src.next(plan)
 	if err != nil {
-		w.Res.Note("generator: %v", err)
+		w.Res.Fatalf("generator: %v", err)
 		return
 	}
 	var serr error
@@ -183,9 +205,10 @@ func (w *World) storeOne(plan Plan) {
 			w.Res.Sample(12, map[string]string{"unexpected-store-error": serr.Error(), "history": w.Name})
 		}
 		w.Res.Hit("store-error:" + errClass(serr))
+		w.Faulted = false // a failed Store resets the running filter (3373c0b)
 		// keep the source in step with the node
 		if err := w.Src.G.Revert(); err != nil {
-			w.Res.Note("generator revert: %v", err)
+			w.Res.Fatalf("generator revert: %v", err)
 		}
 		return
 	}
@@ -199,7 +222,7 @@ func (w *World) storeEmptyRun(n int) {
 	for i := 0; i < n; i++ {
 		b, err := w.Src.next(nil)
 		if err != nil {
-			w.Res.Note("generator: %v", err)
+			w.Res.Fatalf("generator: %v", err)
 			break
 		}
 		if err := lib.StoreOn(w.Node.BC, b); err != nil {
@@ -214,7 +237,7 @@ func (w *World) storeEmptyRun(n int) {
 			return
 		}
 		if len(bloomItems(b.Block.EventsBloom)) != 0 {
-			w.Res.Note("empty block with non-empty bloom")
+			w.Res.Fatalf("empty block with non-empty bloom")
 		}
 		w.Chain = append(w.Chain, nil)
 		w.Bundles = append(w.Bundles, b)
@@ -234,7 +257,7 @@ func (w *World) revertOne() {
 	if len(w.Chain) == 0 {
 		// reverting an empty chain: both sides must refuse
 		if err == nil {
-			w.Res.Note("RevertHead on an empty chain succeeded")
+			w.Res.Violate(lib.Violation{Sig: "revert-of-empty-chain-succeeds", What: "RevertHead on an empty chain returned nil", Replay: w.replay()})
 		}
 		w.compare("revert-result", "err", strings.SplitN(model, ":", 2)[0])
 		return
@@ -242,10 +265,11 @@ func (w *World) revertOne() {
 	w.compare("revert-result", resStr(err), model)
 	if err != nil {
 		w.Res.Hit("revert-error:" + errClass(err))
+		w.Faulted = false
 		return
 	}
 	if gerr := w.Src.G.Revert(); gerr != nil {
-		w.Res.Note("generator revert: %v", gerr)
+		w.Res.Fatalf("generator revert: %v", gerr)
 	}
 	w.Chain = w.Chain[:len(w.Chain)-1]
 	w.Bundles = w.Bundles[:len(w.Bundles)-1]
@@ -270,15 +294,16 @@ func (w *World) checkTag(fe blockchain.FilteredEvent, pre []*pending.PreConfirme
 	b := int(fe.BlockNumber)
 	var blk *core.Block
 	switch {
+	case w.preFirst >= 0 && b >= w.preFirst && b-w.preFirst < len(pre):
+		// served from the pre-confirmed chain (also a copy of a canonical block the chain still holds)
+		blk = pre[b-w.preFirst].Block
+		if fe.BlockHash != nil {
+			return fmt.Sprintf("event of pre-confirmed block %d carries a block hash", b)
+		}
 	case b < len(w.Bundles):
 		blk = w.Bundles[b].Block
 		if fe.BlockHash == nil || !fe.BlockHash.Equal(blk.Hash) {
 			return fmt.Sprintf("block hash of event in block %d differs from the canonical block's", b)
-		}
-	case b-len(w.Bundles) < len(pre):
-		blk = pre[b-len(w.Bundles)].Block
-		if fe.BlockHash != nil {
-			return fmt.Sprintf("event of pre-confirmed block %d carries a block hash", b)
 		}
 	default:
 		return fmt.Sprintf("event of block %d above the head", b)
@@ -330,8 +355,16 @@ func preLine(pre []*pending.PreConfirmed, plans []Plan) string {
 func (w *World) runQuery(q Q) {
 	w.ask("mark")
 	head := len(w.Chain) - 1
-	pre := w.mkPre(q.Pre)
+	if q.PreBack > head {
+		q.PreBack = 0
+	}
+	pre := w.mkPre(q.Pre, q.PreBack)
 	fromB, toB := q.bounds(head)
+	w.preFirst = -1
+	if len(pre) > 0 && (toB == sentinel || toB > uint64(head)) {
+		w.preFirst = head - q.PreBack + 1
+	}
+	defer func() { w.preFirst = -1 }()
 	if q.Rpc && (q.FromTag == "hash" && q.From > head || q.ToTag == "hash" && q.To > head) {
 		return // no such block to take the hash of: not a query
 	}
@@ -362,7 +395,7 @@ func (w *World) runQuery(q Q) {
 		}
 		if w.Drv != nil && !w.drvDead {
 			model := w.ask(fmt.Sprintf("qp %s %x %x %s %x %x %x %s", strings.NewReplacer("A=", "", "K=", "").Replace(q.F.String()),
-				fromB, toB, mtok, q.Chunk, q.Limit, head, preLine(pre, q.Pre)))
+				fromB, toB, mtok, q.Chunk, q.Limit, head-q.PreBack, preLine(pre, q.Pre)))
 			w.Res.Compared(1)
 			if model != pg.String() {
 				agree = false
@@ -383,9 +416,20 @@ func (w *World) runQuery(q Q) {
 		}
 		if pg.Err != "" {
 			fail = "query-fails:" + pg.Err
-			w.Res.Violate(lib.Violation{Sig: "query-returns-error-" + pg.Err,
-				What:   fmt.Sprintf("%s page %d (token %q) of %v: %s", w.Name, pages, tok, q, pg.Bad),
-				Replay: rep()})
+			switch {
+			case w.Tampered:
+				w.Res.Hit("query-error-on-corrupted-database:" + pg.Err)
+			case w.Faulted && pg.Err == "io":
+				// the database is intact; only the remembered initialisation error makes the query fail
+				w.Res.Violate(lib.Violation{Sig: "event-query-fails-after-transient-init-error",
+					What: fmt.Sprintf("%s: the lazy initialisation of the running event filter failed once (transient read error); "+
+						"the database is intact but %v still fails: %s", w.Name, q, pg.Bad),
+					Replay: rep()})
+			default:
+				w.Res.Violate(lib.Violation{Sig: "query-returns-error-" + pg.Err,
+					What:   fmt.Sprintf("%s page %d (token %q) of %v: %s", w.Name, pages, tok, q, pg.Bad),
+					Replay: rep()})
+			}
 			break
 		}
 		if pg.Bad != "" {
@@ -437,6 +481,9 @@ func (w *World) runQuery(q Q) {
 	w.Res.HitN("events-returned", len(all))
 	if len(want) > 0 {
 		w.Res.Hit("query:non-empty-answer")
+		if q.PreBack > 0 && len(q.Pre) > 0 {
+			w.Res.Hit("query:pre-confirmed-chain-built-below-the-head")
+		}
 		if len(q.Pre) > 0 && want[len(want)-1].B > head {
 			w.Res.Hit("query:answer-includes-pre-confirmed-events")
 		}
@@ -508,8 +555,15 @@ func (w *World) want(q Q) []Em {
 		return nil
 	}
 	chain := w.Chain
-	if len(q.Pre) > 0 {
-		chain = append(append([]Plan{}, w.Chain...), q.Pre...)
+	head := len(w.Chain) - 1
+	_, toB := q.bounds(head)
+	if len(q.Pre) > 0 && (toB == sentinel || toB > uint64(head)) {
+		// the canonical part ends at the block the pre-confirmed chain was built on
+		back := q.PreBack
+		if back > head {
+			back = 0
+		}
+		chain = append(append([]Plan{}, w.Chain[:head-back+1]...), q.Pre...)
 	}
 	return naive(chain, q.F, lo, hi)
 }
@@ -604,11 +658,14 @@ func (w *World) do(op Op) {
 		}
 		w.checkState("revert")
 	case "prune":
-		var err error
-		lib.Try(func() error {
-			_, _, err = pruner.PruneUpto(context.Background(), w.Node.DB, uint64(op.N), 1<<16)
-			return err
+		err, panicked, _ := lib.Try(func() error {
+			_, _, perr := pruner.PruneUpto(context.Background(), w.Node.F, uint64(op.N), 1<<16)
+			return perr
 		})
+		if panicked {
+			w.Res.Violate(lib.Violation{Sig: "prune-panics", What: err.Error(), Replay: w.replay()})
+			return
+		}
 		w.compare("prune-result", resStr(err), w.ask(fmt.Sprintf("prune %x", op.N)))
 		if err == nil && op.N > w.Floor && op.N < len(w.Chain) {
 			w.Floor = op.N
@@ -624,12 +681,55 @@ func (w *World) do(op Op) {
 	case "restart":
 		w.hitRestartBranch()
 		w.Node.open()
-		model := w.ask("restart")
-		// the real initialiser runs lazily; its result shows at the next access. An error here
-		// would surface there.
-		if model != "" && model != "ok" {
-			w.Res.Hit("model-restart-error")
+		w.Faulted = false
+		w.restartProbe(w.ask("restart"))
+	case "storefail":
+		w.failedStore(op.Plan)
+		w.checkState("storefail")
+	case "revertfail":
+		if len(w.Chain) > 0 {
+			w.Node.F.mu.Lock()
+			w.Node.F.failCommit = 1
+			w.Node.F.mu.Unlock()
+			err, _, _ := lib.Try(func() error { return w.Node.BC.RevertHead() })
+			if err == nil || errClass(err) != "io" {
+				w.Res.Fatalf("injected commit failure of RevertHead not reported: %v", err)
+			}
+			w.ask("revertfail")
+			w.Faulted = false
+			w.Res.Hit("fault:failed-revert-commit")
 		}
+		w.checkState("revertfail")
+	case "restartfault":
+		if len(w.Chain) == 0 {
+			break
+		}
+		w.Node.open()
+		w.Node.F.mu.Lock()
+		w.Node.F.failReadKey = db.RunningEventFilter.Key()
+		w.Node.F.mu.Unlock()
+		w.ask("restartfault")
+		// the access that hits the transient error fails legitimately
+		w.restartProbe("err:io")
+		w.Node.F.mu.Lock()
+		armed := w.Node.F.failReadKey != nil
+		w.Node.F.failReadKey = nil
+		w.Node.F.mu.Unlock()
+		if armed {
+			w.Res.Fatalf("injected read failure was not consumed by the initialiser")
+		}
+		if w.V.InitRetry {
+			w.ask("restart") // the repaired code forgets the failure: the model is re-armed
+		} else {
+			w.Faulted = true
+		}
+		w.Res.Hit("fault:failed-lazy-initialisation")
+	case "restartcrash":
+		w.crashInInit(op.N)
+	case "prunecrash":
+		w.pruneCrash(op.N, max(op.J, 1))
+	case "tamper":
+		w.tamper(op.T)
 	case "query":
 		w.runQuery(*op.Q)
 	}
@@ -651,20 +751,20 @@ func cfgLine(v Variant) string {
 func (p *DrvPool) spawn() *lib.Driver {
 	d, err := lib.StartDriver(p.path)
 	if err != nil {
-		p.res.Note("driver: %v", err)
+		p.res.Fatalf("driver: %v", err)
 		return nil
 	}
 	lines := append([]string{cfgLine(Variant{})}, p.lines...)
 	lines = append(lines, "save")
 	outs, err := d.AskAll(lines)
 	if err != nil {
-		p.res.Note("driver preload: %v", err)
+		p.res.Fatalf("driver preload: %v", err)
 		d.Close()
 		return nil
 	}
 	for _, o := range outs {
 		if o != "ok" {
-			p.res.Note("driver preload answered %q", o)
+			p.res.Fatalf("driver preload answered %q", o)
 			break
 		}
 	}
@@ -771,17 +871,18 @@ func newWorld(name string, r *lib.RNG, res *lib.Result, pool *DrvPool, v Variant
 }
 
 func (w *World) startDriver(pool *DrvPool, v Variant, loadBase bool) {
+	w.V = v
 	if pool == nil {
 		return
 	}
 	w.pool = pool
 	w.Drv = <-pool.ch
 	if out := w.ask(cfgLine(v)); out != "ok" {
-		w.Res.Note("driver cfg: %q", out)
+		w.Res.Fatalf("driver cfg: %q", out)
 	}
 	if loadBase {
 		if out := w.ask("load"); out != "ok" {
-			w.Res.Note("driver load: %q", out)
+			w.Res.Fatalf("driver load: %q", out)
 		}
 	}
 }
@@ -809,4 +910,165 @@ func (w *World) fork(name string, r *lib.RNG, id uint64, pool *DrvPool, v Varian
 		Hist: append([]Op{}, w.Hist...), Floor: w.Floor}
 	f.startDriver(pool, v, true)
 	return f
+}
+
+// restartProbe forces the lazy initialiser with a one-block query on the head's window (it loads the
+// running window only, the cache is not touched) and compares its outcome with the model's restart.
+func (w *World) restartProbe(modelRestart string) {
+	if len(w.Chain) == 0 {
+		return
+	}
+	head := len(w.Chain) - 1
+	q := Q{F: Filt{Addrs: []int{len(addrU) - 1}}, From: head, To: head, Chunk: 1}
+	if head < w.Floor {
+		q.From, q.To = head+1, head+1 // nothing retained: ask above the head (still loads no window)
+	}
+	pg := realPage(w.Node, w, q, nil, "")
+	impl := "ok"
+	if pg.Err != "" {
+		impl = "err:" + pg.Err
+	}
+	if w.Drv != nil && !w.drvDead {
+		model := w.ask(fmt.Sprintf("qp %s %x %x - - 1 0 %x -", strings.NewReplacer("A=", "", "K=", "").Replace(q.F.String()), q.From, q.To, head))
+		if strings.HasPrefix(model, "ok") {
+			model = "ok"
+		}
+		w.compare("restart-outcome", impl, model)
+		if q.From <= head {
+			w.compare("restart-result", impl, modelRestart)
+		}
+	}
+	if impl != "ok" {
+		w.Res.Hit("restart-outcome:" + impl)
+		if !w.Tampered && modelRestart == "ok" {
+			w.Res.Violate(lib.Violation{Sig: "running-filter-initialisation-fails", What: fmt.Sprintf("%s: first access after a restart fails: %s", w.Name, pg.Bad), Replay: w.replay()})
+		}
+	}
+}
+
+// failedStore: a Store whose commit fails. The in-memory filter was advanced inside the closure
+// (also across a window end); 3373c0b resets it, the database is unchanged.
+func (w *World) failedStore(plan Plan) {
+	b, err := w.Src.next(plan)
+	if err != nil {
+		w.Res.Fatalf("generator: %v", err)
+		return
+	}
+	w.Node.F.mu.Lock()
+	w.Node.F.failCommit = 1
+	w.Node.F.mu.Unlock()
+	serr, _, _ := lib.Try(func() error { return lib.StoreOn(w.Node.BC, b) })
+	if serr == nil || errClass(serr) != "io" {
+		w.Res.Fatalf("injected commit failure of Store not reported: %v", serr)
+	}
+	w.Node.F.mu.Lock()
+	w.Node.F.failCommit = 0
+	w.Node.F.mu.Unlock()
+	if gerr := w.Src.G.Revert(); gerr != nil {
+		w.Res.Fatalf("generator revert: %v", gerr)
+	}
+	w.ask("storefail")
+	w.Faulted = false
+	w.Res.Hit("fault:failed-store-commit")
+	if (len(w.Chain)+1)%W == 0 {
+		w.Res.Hit("fault:failed-store-commit-at-window-end")
+	}
+}
+
+// crashInInit: the process dies inside the lazy initialiser. The initialiser writes at most one
+// window (when the fill reaches a window end); `after` = 0: the crash comes before that write,
+// 1: after everything it writes. The database image is then opened by a fresh node.
+func (w *World) crashInInit(after int) {
+	if len(w.Chain) == 0 {
+		return
+	}
+	img := &Node{DB: w.Node.DB.Copy(), NewState: w.Node.NewState, Pruner: w.Node.Pruner}
+	img.open()
+	if after == 0 {
+		// the first commit-free direct write of the initialiser is refused: memory.Database.Put is
+		// not interceptable per bucket here, so the image simply never runs the initialiser
+		w.ask("restartcrash 0")
+	} else {
+		pg := realPage(img, w, Q{F: Filt{}, From: len(w.Chain) - 1, To: len(w.Chain) - 1, Chunk: 1}, nil, "")
+		if pg.Err != "" && !w.Tampered {
+			w.Res.Violate(lib.Violation{Sig: "running-filter-initialisation-fails", What: pg.Bad, Replay: w.replay()})
+		}
+		w.ask(fmt.Sprintf("restartcrash %x", len(w.Chain)+1))
+	}
+	// the image (with whatever the dying process wrote) becomes the node's database
+	w.Node.DB = img.DB
+	w.Node.open()
+	w.Faulted = false
+	w.Res.Hit(fmt.Sprintf("fault:crash-inside-initialiser-%d", after))
+	w.restartProbe("ok")
+	w.checkState("restartcrash")
+}
+
+// pruneCrash: pruner.PruneUpto(k) with one-byte batches (a commit per block) whose j-th commit fails:
+// the database must be in the state of a completed prune to some k' (every batch carries the
+// number-keyed deletes of the blocks it covers), which the model is then told.
+func (w *World) pruneCrash(k, j int) {
+	w.Node.F.mu.Lock()
+	w.Node.F.failCommit = j
+	w.Node.F.mu.Unlock()
+	err, panicked, _ := lib.Try(func() error {
+		_, _, err := pruner.PruneUpto(context.Background(), w.Node.F, uint64(k), 1)
+		return err
+	})
+	w.Node.F.mu.Lock()
+	fired := w.Node.F.failCommit == 0
+	w.Node.F.failCommit = 0
+	w.Node.F.mu.Unlock()
+	if panicked {
+		w.Res.Violate(lib.Violation{Sig: "prune-panics", What: err.Error(), Replay: w.replay()})
+	}
+	floor := 0
+	if f, ferr := pruner.OldestRetainedBlock(w.Node.DB); ferr == nil {
+		floor = int(f)
+	}
+	if fired && err == nil {
+		w.Res.Fatalf("injected commit failure of PruneUpto not reported")
+	}
+	if floor < w.Floor || floor > max(k, w.Floor) {
+		w.Res.Violate(lib.Violation{Sig: "interrupted-prune-leaves-impossible-floor",
+			What: fmt.Sprintf("PruneUpto(%d) from floor %d interrupted at commit %d left floor %d", k, w.Floor, j, floor), Replay: w.replay()})
+	}
+	if floor > w.Floor && floor < len(w.Chain) {
+		w.ask(fmt.Sprintf("prune %x", floor))
+		w.Floor = floor
+	}
+	if fired {
+		w.Res.Hit("fault:prune-interrupted")
+	}
+	w.checkState("prunecrash")
+}
+
+// tamper corrupts the persisted windows behind the node's back (ties the model's notfound / bounds
+// branches; from here on the history is correspondence only).
+func (w *World) tamper(t string) {
+	w.Tampered = true
+	var a, b uint64
+	switch {
+	case strings.HasPrefix(t, "del "):
+		fmt.Sscanf(t, "del %d", &a)
+		if err := core.DeleteAggregatedBloomFilter(w.Node.DB, a, a+uint64(W)-1); err != nil {
+			w.Res.Fatalf("tamper: %v", err)
+		}
+		w.ask(fmt.Sprintf("tamper del %x", a))
+	case strings.HasPrefix(t, "mov "):
+		fmt.Sscanf(t, "mov %d %d", &a, &b)
+		flt, err := core.GetAggregatedBloomFilter(w.Node.DB, a, a+uint64(W)-1)
+		if err != nil {
+			w.Res.Fatalf("tamper: %v", err)
+			return
+		}
+		// store the filter of window a under the key of window b (its own bounds stay a's)
+		if err := writeAggUnderKey(w.Node.DB, &flt, b); err != nil {
+			w.Res.Fatalf("tamper: %v", err)
+		}
+		w.ask(fmt.Sprintf("tamper mov %x %x", a, b))
+	default:
+		w.Res.Fatalf("tamper: unknown %q", t)
+	}
+	w.Res.Hit("tamper:" + strings.SplitN(t, " ", 2)[0])
 }
